@@ -103,6 +103,7 @@ def near_misses(p):
 
 
 OPS = ['encrypt:p', 'encrypt:q', 'lock', 'unlock:p', 'unlock:q', 'unlock:w', 'decrypt', 'save', 'reload', 'pack']
+ACCOUNT_OPS = ['add-account:seeded', 'add-account:xprv', 'add-account:watch', 'remove-account']
 
 # ---------------------------------------------------------------------------------------------------
 # deterministic environment (IVs, timestamps, expensive pure third-party KDFs memoised)
@@ -184,9 +185,10 @@ class Env:
         self.time = FakeTime()
         self.acct_rng = DetRandom(rng_seed, 'account')
         self.crypt_rng = DetRandom(rng_seed, 'crypt')
-        self.saved = [(W, 'time', W.time), (A, 'os', A.os), (C, 'os', C.os), (M, 'pbkdf2', M.pbkdf2),
+        self.saved = [(W, 'time', W.time), (A, 'time', A.time), (A, 'os', A.os), (C, 'os', C.os), (M, 'pbkdf2', M.pbkdf2),
                       (C, 'scrypt', C.scrypt), (W, 'os', W.os), (W, 'open', W.__dict__.get('open', Env))]
         W.time = self.time
+        A.time = self.time          # modified_on of accounts created without one (the daemon's account_add)
         A.os = self.acct_rng
         C.os = self.crypt_rng
         M.pbkdf2 = MemoPBKDF2(M.pbkdf2)
@@ -274,7 +276,7 @@ def account_secrets(account):
 def key_material(account, deep):
     """What "the same seed, keys and addresses" means, as plain data."""
     pk = account.private_key
-    d = {'seed': account.seed, 'xpub': account.public_key.extended_key_string(),
+    d = {'seed': account.seed or '', 'xpub': account.public_key.extended_key_string(),
          'xprv': pk.extended_key_string() if pk is not None else None,
          'priv': pk.private_key_bytes.hex() if pk is not None else None,
          'chain': pk.chain_code.hex() if pk is not None else None,
@@ -300,29 +302,60 @@ class Bad(Exception):
         self.kind, self.what, self.extra = kind, what, extra
 
 
+ADD_SEEDS = {
+    'seeded': "legal winner thank year wave sausage worth useful legal winner thank yellow",
+    'xprv':   "letter advice cage absurd amount doctor acoustic avoid letter advice cage above",
+    'watch':  "zoo zoo zoo zoo zoo zoo zoo zoo zoo zoo zoo wrong",
+}
+MAX_ACCOUNTS_DELTA = 2          # at most this many add-account operations per history
+
+
+def take_snapshot(account):
+    """(secrets, key material, to_dict) of one freshly built, unencrypted account."""
+    return (account_secrets(account), key_material(account, True), json.loads(json.dumps(account.to_dict())))
+
+
 class World:
-    """Real wallet + the reference model of the statement, advanced in lock step."""
+    """Real wallet + the reference model of the statement, advanced in lock step.  The model is per account
+    (who is in the wallet, which accounts are encrypted in memory and under which password) because accounts can
+    be added to and removed from a wallet in any lock state."""
 
     def __init__(self, env, kind, wallet):
         from lbry.wallet.wallet import ENCRYPT_ON_DISK
         self.PREF = ENCRYPT_ON_DISK
         self.env, self.kind, self.w = env, kind, wallet
-        self.has_secret = any(a.seed or a.private_key is not None for a in wallet.accounts)
-        # the pre-encryption snapshot is a pure function of the account set: taken once per Env
-        snap = env.snapshots.get(kind)
-        if snap is None:
-            secrets = {}
-            for i, a in enumerate(wallet.accounts):
-                for k, v in account_secrets(a).items():
-                    secrets[f'{i}:{k}'] = v
-            snap = env.snapshots[kind] = (secrets, [key_material(a, True) for a in wallet.accounts],
-                                          json.loads(json.dumps(wallet.to_dict()['accounts'])))
-        self.secrets, self.material, self.accounts_plain = snap
-        # reference model: who holds which password
+        # the pre-encryption snapshots are a pure function of the account set: taken once per Env
+        snaps = env.snapshots.get(kind)
+        if snaps is None:
+            snaps = env.snapshots[kind] = [take_snapshot(a) for a in wallet.accounts]
+        self.accts = [{'rid': f'{kind}#{i}', 'snap': sn, 'secret': bool(sn[0]), 'enc': False, 'key': None}
+                      for i, sn in enumerate(snaps)]
+        self.adds = 0
+        # reference model: which password the wallet holds, the preference, what the file contains
         self.m = {'locked': False, 'mem': None, 'pref': None, 'key': None, 'file': None}
         self.log = []
         self.tallies = []
         self.witnesses = []
+
+    # -- derived model facts -----------------------------------------------------------------------
+    @property
+    def has_secret(self):
+        """Is there an encrypted account whose ciphertext can tell one password from another?"""
+        return any(a['enc'] and a['secret'] for a in self.accts) if self.m['locked'] else any(a['secret'] for a in self.accts)
+
+    @property
+    def secrets(self):
+        out = {}
+        for i, a in enumerate(self.accts):
+            for k, v in a['snap'][0].items():
+                out[f'{i}:{k}'] = v
+        return out
+
+    def _sync(self):
+        m = self.m
+        m['locked'] = any(a['enc'] for a in self.accts)
+        keys = [a['key'] for a in self.accts if a['enc'] and a['secret']] or [a['key'] for a in self.accts if a['enc']]
+        m['key'] = keys[0] if keys else None
 
     # -- observation -------------------------------------------------------------------------------
     def file_bytes(self):
@@ -363,81 +396,126 @@ class World:
                                  if a.get('encrypted') else None) for a in json.loads(data)['accounts'])
             except ValueError:
                 on_disk = 'unparseable'
-        return (m['locked'], inv.get(m['mem'], m['mem']), m['pref'], inv.get(m['key'], m['key']),
-                None if f is None else (f[0], inv.get(f[1], f[1]), f[2]),
+        model_accts = tuple((a['rid'], a['enc'], inv.get(a['key'], a['key'])) for a in self.accts)
+        model_file = None if f is None else (f['pref'], tuple((r, inv.get(k, k)) for r, k, _s in f['accts']))
+        return (model_accts, inv.get(m['mem'], m['mem']), m['pref'], model_file, self.adds,
                 mem, on_disk, inv.get(w.encryption_password, w.encryption_password is not None),
                 w.preferences.get(self.PREF, None))
 
     # -- the statement's invariants, checked in every state ------------------------------------------
-    def check_state(self, deep):
+    def check_state(self, deep, wrote=False):
+        """wrote: did the operation just applied hand bytes to storage?  The statement's secrecy clause is judged on the
+        bytes at the moment they are written (weaker reading); a file written earlier, while no password was set, that
+        is still on disk once a password is set is tallied (stronger reading)."""
         w, m = self.w, self.m
+        self._sync()
         if w.is_locked != m['locked']:
             raise Bad('lock-state', f"wallet.is_locked={w.is_locked}, the history implies {m['locked']}")
-        flags = {a.encrypted for a in w.accounts}
+        if len(w.accounts) != len(self.accts):
+            raise Bad('secrets-differ', f'{len(w.accounts)} accounts, expected {len(self.accts)}', field='accounts')
         # internal bookkeeping the statement does not name: tallied; the model keeps following the statement, so
         # any consequence the statement does name (a secret in the file, the right password refused) still fires
-        if len(flags) > 1:
+        if [a.encrypted for a in w.accounts] != [a['enc'] for a in self.accts]:
             self.tallies.append('interpretation_only:accounts_disagree_about_being_encrypted')
         if w.encryption_password != m['mem']:
             self.tallies.append('interpretation_only:held_password_differs_from_history')
-        if not m['locked']:
-            now = [key_material(a, deep) for a in w.accounts]
-            for i, (a, b) in enumerate(zip(self.material, now)):
-                for k, v in b.items():
-                    if a[k] != v:
-                        raise Bad('secrets-differ', f'account {i}: {k} differs from the pre-encryption value '
-                                                    f'({str(v)[:40]!r} != {str(a[k])[:40]!r})', field=k.split('-')[0])
-            if len(now) != len(self.material):
-                raise Bad('secrets-differ', f'{len(now)} accounts, expected {len(self.material)}', field='accounts')
-            got = json.loads(json.dumps(w.to_dict()['accounts']))
-            for i, (a, b) in enumerate(zip(self.accounts_plain, got)):
-                for k in sorted(set(a) | set(b)):
-                    if a.get(k) != b.get(k):
-                        if k in ('seed', 'private_key', 'public_key', 'address_generator', 'certificates', 'encrypted'):
-                            raise Bad('secrets-differ', f'to_dict() of the unlocked wallet: account {i} field {k} '
-                                                        f'differs from the original', field=k)
-                        self.tallies.append(f'interpretation_only:account_field_{k}_changed')
+        for i, (acct, ma) in enumerate(zip(w.accounts, self.accts)):
+            if ma['enc'] or acct.encrypted:
+                continue
+            # every account that is not encrypted must be exactly what it was before any encryption
+            want = ma['snap'][1]
+            for k, v in key_material(acct, deep).items():
+                if want[k] != v:
+                    raise Bad('secrets-differ', f'account {i} ({ma["rid"]}): {k} differs from the pre-encryption value '
+                                                f'({str(v)[:40]!r} != {str(want[k])[:40]!r})', field=k.split('-')[0])
+            plain, got = ma['snap'][2], json.loads(json.dumps(acct.to_dict()))
+            for k in sorted(set(plain) | set(got)):
+                if (plain.get(k) or '') != (got.get(k) or '') if k in ('seed', 'private_key') else plain.get(k) != got.get(k):
+                    if k == 'modified_on':
+                        continue
+                    if k in ('seed', 'private_key', 'public_key', 'address_generator', 'certificates', 'encrypted'):
+                        raise Bad('secrets-differ', f'to_dict() of unencrypted account {i} ({ma["rid"]}): field {k} '
+                                                    f'differs from the original', field=k)
+                    self.tallies.append(f'interpretation_only:account_field_{k}_changed')
         data = self.file_bytes()
         if (m['file'] is None) != (data is None):
             self.tallies.append('interpretation_only:wallet_file_presence_differs_from_history')
         if data is not None:
             text = data.decode('utf-8', 'replace')
-            # the statement's own condition, read off the real wallet
+            # the statement's own condition, read off the real wallet; secrets of ALL accounts now in the wallet
             enforced = bool(w.preferences.get(self.PREF, False)) and w.encryption_password is not None
             leaks = [k for k, s in self.secrets.items() if s in text]
-            if leaks and enforced:
-                raise Bad('plaintext-secret-on-disk', f'{leaks[0]} of account readable in the wallet file while '
-                          f'encrypt-on-disk is on and a password is set', secret=leaks[0].split(':')[1].split('-')[0])
+            if leaks and enforced and not wrote:
+                self.tallies.append('interpretation_only:plaintext_written_while_no_password_was_set_still_on_disk')
+            if leaks and enforced and wrote:
+                idx = int(leaks[0].split(':')[0])
+                raise Bad('plaintext-secret-on-disk', f'{leaks[0]} ({self.accts[idx]["rid"]}) readable in the wallet file '
+                          f'while encrypt-on-disk is on and a password is set',
+                          secret=leaks[0].split(':')[1].split('-')[0],
+                          added=self.accts[idx]['rid'].startswith('add:'))
             if enforced:
                 self.witnesses.append('file_scanned_while_encryption_enforced')
+                if m['locked'] and not all(a['enc'] for a in self.accts):
+                    self.witnesses.append('file_scanned_with_unencrypted_account_in_locked_wallet')
             if m['file'] is not None:
-                if leaks and m['file'][0] == 'enc':
+                expected_enc = [k is not None for _r, k, _s in m['file']['accts']]
+                if leaks and all(expected_enc):
                     self.tallies.append('interpretation_only:plaintext_in_file_expected_encrypted_but_condition_off')
-                file_enc = [bool(a.get('encrypted')) for a in json.loads(text)['accounts']]
-                if m['file'][0] == 'enc' and not all(file_enc):
-                    self.tallies.append('interpretation_only:account_flagged_unencrypted_in_encrypted_file')
-                if m['file'][0] == 'plain' and any(file_enc) and self.has_secret:
-                    self.tallies.append('interpretation_only:file_encrypted_while_model_says_plain')
+                try:
+                    file_enc = [bool(a.get('encrypted')) for a in json.loads(text)['accounts']]
+                except ValueError:
+                    file_enc = None
+                if file_enc != expected_enc:
+                    self.tallies.append('interpretation_only:file_encryption_flags_differ_from_history')
 
     # -- operations --------------------------------------------------------------------------------
     def expected_file_after_save(self):
         m = self.m
-        if m['locked']:
-            return ('enc', m['key'], m['pref'])
-        if m['pref'] and m['mem'] is not None:
-            return ('enc', m['mem'], True)
-        if m['pref'] and m['mem'] is None:
+        self._sync()
+        if m['pref'] and m['mem'] is None and not m['locked']:
             m['pref'] = False
-        return ('plain', None, m['pref'])
+        on_the_fly = m['mem'] if m['pref'] and m['mem'] is not None else None
+        return {'pref': m['pref'],
+                'accts': [(a['rid'], a['key'] if a['enc'] else on_the_fly, a['secret']) for a in self.accts]}
+
+    def add_account(self, kind):
+        """What the daemon's account_add does: Account.from_dict on the live wallet (in any lock state), then save."""
+        from lbry.wallet import Account, Wallet
+        env = self.env
+        seed = ADD_SEEDS[kind]
+        d = {'name': f'added-{kind}', 'seed': None, 'private_key': None, 'public_key': None,
+             'address_generator': {'name': 'deterministic-chain'}}
+        if kind == 'seeded':
+            d['seed'] = seed
+        else:
+            tmp = Account.from_dict(env.ledger, Wallet(), {'seed': seed})
+            env.ledger.accounts.remove(tmp)
+            d['public_key'] = tmp.public_key.extended_key_string()
+            if kind == 'xprv':
+                d['private_key'] = tmp.private_key.extended_key_string()
+        account = Account.from_dict(env.ledger, self.w, d)
+        snap = env.snapshots.get(f'add:{kind}')
+        if snap is None:
+            snap = env.snapshots[f'add:{kind}'] = take_snapshot(account)
+        self.accts.append({'rid': f'add:{kind}', 'snap': snap, 'secret': bool(snap[0]), 'enc': False, 'key': None})
+        self.adds += 1
+        self.w.save()
 
     def apply(self, op, roles, probes=True, check=True):
         """Apply one operation to the real wallet and to the model; raise Bad on a violation.  Returns
-        'ok' | 'refused' (precondition assert, nothing changed) | 'false'."""
+        'ok' | 'refused' (precondition assert, nothing changed) | 'false' | 'disabled' | 'unmodelled'."""
         from lbry.error import InvalidPasswordError
         w, m, env = self.w, self.m, self.env
         name, _, role = op.partition(':')
         pw = roles.get(role)
+        self._sync()
+        if name == 'add-account' and (self.adds >= MAX_ACCOUNTS_DELTA or any(a['rid'] == f'add:{role}' for a in self.accts)):
+            return 'disabled'
+        if name == 'remove-account' and len(self.accts) < 2:
+            return 'disabled'
         before = self.observe() if check else None
+        was_locked = m['locked']
+        log_mark = len(env.fs.log)
         outcome, exc = 'ok', None
         try:
             if name == 'encrypt':
@@ -453,6 +531,13 @@ class World:
             elif name == 'decrypt':
                 w.decrypt()
             elif name == 'save':
+                w.save()
+            elif name == 'add-account':
+                self.add_account(role)
+            elif name == 'remove-account':
+                # the daemon's account_remove: drop the account (here: the newest one), then save
+                w.accounts.remove(w.accounts[-1])
+                self.accts.pop()
                 w.save()
             elif name == 'reload':
                 if m['file'] is None or self.file_bytes() is None:
@@ -482,23 +567,31 @@ class World:
                 m['file'] = self.expected_file_after_save()
         elif name == 'lock':
             expect = 'refused' if m['mem'] is None else 'ok'
-            if expect == 'ok' and not m['locked']:
-                m['locked'], m['key'] = True, m['mem']
+            if expect == 'ok':
+                for a in self.accts:
+                    if not a['enc']:
+                        a['enc'], a['key'] = True, m['mem']
         elif name == 'unlock':
-            if not m['locked']:
+            locked = [a for a in self.accts if a['enc']]
+            judged = [a for a in locked if a['secret']]
+            if not locked:
                 # nothing to unlock: the statement says nothing about the result; a success replaces the held password
                 expect = outcome if outcome in ('ok', 'false') else 'ok'
                 if outcome == 'ok':
                     m['mem'] = pw
-            elif pw == m['key']:
-                expect = 'ok'
-                m['locked'], m['mem'] = False, pw
-            elif not self.has_secret:
-                # nothing is encrypted in a watch-only wallet, so no password can be told from another
+            elif not judged:
+                # nothing is encrypted in watch-only accounts, so no password can be told from another
                 expect = outcome if outcome in ('ok', 'false') else 'false'
                 if outcome == 'ok':
                     self.tallies.append('interpretation_only:watch_only_wallet_unlocked_by_any_password')
-                    m['locked'], m['mem'] = False, pw
+                    for a in locked:
+                        a['enc'], a['key'] = False, None
+                    m['mem'] = pw
+            elif all(a['key'] == pw for a in judged):
+                expect = 'ok'
+                for a in locked:
+                    a['enc'], a['key'] = False, None
+                m['mem'] = pw
             else:
                 expect = 'false'
         elif name == 'decrypt':
@@ -506,14 +599,16 @@ class World:
             if expect == 'ok':
                 m['pref'] = False
                 m['file'] = self.expected_file_after_save()
-        elif name == 'save':
+        elif name in ('save', 'add-account', 'remove-account'):
             expect = 'ok'
             m['file'] = self.expected_file_after_save()
         elif name == 'reload':
             expect = 'ok'
             f = m['file']
-            m['mem'], m['pref'] = None, f[2]
-            m['locked'], m['key'] = (True, f[1]) if f[0] == 'enc' else (False, None)
+            m['mem'], m['pref'] = None, f['pref']
+            byrid = {a['rid']: a for a in self.accts}
+            self.accts = [dict(byrid[r], enc=k is not None, key=k) for r, k, _s in f['accts']]
+        self._sync()
 
         if outcome != expect:
             if name == 'unlock' and expect == 'ok':
@@ -524,7 +619,7 @@ class World:
             if expect == 'refused':
                 self.tallies.append(f'interpretation_only:{name}_guard_not_enforced')
                 return 'unmodelled'
-            if name != 'encrypt':
+            if name not in ('encrypt', 'add-account', 'remove-account'):
                 # only "encrypting a wallet with any password" is promised to work; the rest is bookkeeping
                 self.tallies.append(f'interpretation_only:{name}_refused_although_history_allows_it')
                 return 'unmodelled'
@@ -538,19 +633,25 @@ class World:
                     if name != 'unlock':
                         raise Unmodelled(f'interpretation_only:refused_{name}_changed_wallet')
                     raise Bad('failed-unlock-changed-wallet', f'failed unlock changed the wallet ({k} differs)', field=k)
-        self.check_state(deep=name in ('unlock', 'reload'))
+        wrote = any(o.mutating and o.error is None for o in env.fs.log[log_mark:])
+        self.check_state(deep=name in ('unlock', 'reload', 'add-account'), wrote=wrote)
         if name == 'unlock' and outcome == 'false':
             self.witnesses.append('wrong_password_refused_wallet_unchanged')
-        if name == 'unlock' and outcome == 'ok' and before['accounts'] and before['accounts'][0][0]:
+        if name == 'unlock' and outcome == 'ok' and was_locked:
             self.witnesses.append('unlock_restored_secrets')
+            if any(a['rid'].startswith('add:') and a['secret'] for a in self.accts):
+                self.witnesses.append('unlock_restored_secrets_of_added_account')
         if name == 'reload' and m['locked']:
             self.witnesses.append('reload_of_encrypted_file')
+        if name == 'add-account' and was_locked:
+            self.witnesses.append('account_added_to_locked_wallet')
         if probes and m['locked'] and self.has_secret:
             self.probe_wrong_passwords()
         return outcome
 
     def probe_wrong_passwords(self):
         """Non-branching: in a locked state every password but the key must bounce and change nothing."""
+        self._sync()
         key = self.m['key']
         cands = [p for p in PASSWORDS if p != key] + near_misses(key)
         before = self.observe()
@@ -577,6 +678,7 @@ class World:
         """pack(p) / unpack(p) / unpack(p') as one compound, state-preserving operation."""
         from lbry.error import InvalidPasswordError
         w = self.w
+        self._sync()
         p, wrongs = roles['p'], [roles['w'], roles['q']]
         before = self.observe()
         try:
@@ -598,11 +700,11 @@ class World:
             raise Bad('pack-roundtrip', f'unpack(p, pack(p)) raised {type(e).__name__}: {e}')
         if got != expect:
             raise Bad('pack-roundtrip', 'unpack(p, pack(p)) differs from the wallet data')
-        for i, (a, b) in enumerate(zip(self.accounts_plain, got['accounts'])):
+        for i, (ma, b) in enumerate(zip(self.accts, got['accounts'])):
             for k in ('seed', 'private_key', 'public_key', 'address_generator', 'certificates', 'encrypted'):
-                if a.get(k) != b.get(k):
+                if (ma['snap'][2].get(k) or '') != (b.get(k) or ''):
                     raise Bad('pack-roundtrip', f'unpacked account {i}: {k} differs from the original', field=k)
-        if len(got['accounts']) != len(self.accounts_plain):
+        if len(got['accounts']) != len(self.accts):
             raise Bad('pack-roundtrip', 'unpacked wallet has a different number of accounts', field='accounts')
         raw = base64.b64decode(blob)
         text = raw.decode('latin-1')
@@ -647,15 +749,21 @@ def run_history(env, kind, pi, hist, probes_last=False):
 
 def signature(kind, pi, op, bad):
     sig = {'kind': bad.kind, 'accounts': kind, 'op': op.partition(':')[0], 'password': pw_class(PASSWORDS[pi])}
-    for k in ('field', 'secret', 'exc'):
+    for k in ('field', 'secret', 'exc', 'added'):
         if k in bad.extra:
             sig[k] = bad.extra[k]
     return sig
 
 
+def is_account_op(op):
+    return op.startswith(('add-account', 'remove-account'))
+
+
 def bfs_item(item, res):
-    """One (account set, password) pair: BFS to `depth` over OPS with canonical-state hashing."""
-    _, kind, pi, depth, rng_seed = item
+    """One (account set, password) pair: BFS to `depth` over OPS with canonical-state hashing.  With acct_depth > 0
+    the operations that change the account set (ACCOUNT_OPS) are enabled too, in histories of length <= acct_depth."""
+    _, kind, pi, depth, rng_seed = item[:5]
+    acct_depth = item[5] if len(item) > 5 else 0
     env = Env(rng_seed)
     try:
         roles = roles_for(pi)
@@ -668,8 +776,12 @@ def bfs_item(item, res):
         while frontier:
             nxt = []
             for hist in frontier:
-                for op in OPS:
+                changes_accounts = any(is_account_op(o) for o in hist)
+                if changes_accounts and len(hist) >= acct_depth:
+                    continue
+                for op in OPS + (ACCOUNT_OPS if len(hist) < acct_depth else []):
                     nh = hist + [op]
+                    plain = not changes_accounts and not is_account_op(op)
                     res.count('executions')
                     res.count('evaluations')
                     res.count('transitions', len(nh))
@@ -710,7 +822,7 @@ def bfs_item(item, res):
                         res.distinct_add('nontrivial', (kind, pi, c))
                         if len(nh) < depth:
                             nxt.append(nh)
-                        res.setmax('max_depth_new_state', len(nh))
+                        res.setmax('max_depth_new_state' if plain else 'max_depth_new_state_with_account_ops', len(nh))
             frontier = nxt
         res.setmax('states_per_pair', len(seen))
         if res.maxes.get('max_depth_new_state', 0) < depth:
@@ -933,7 +1045,7 @@ def crash_scenario(env, kind, scenario, journal):
     world = env.build(kind, fs=fs, journal=journal)
     if pre:
         # continue from the on-disk state exactly as a restarted process would
-        world.m['file'] = ('plain', None, None)   # placeholder so that reload is enabled
+        world.m['file'] = {'pref': None, 'accts': []}   # placeholder so that reload is enabled
         env.ledger.accounts.clear()
         world.w = env.W.Wallet.from_storage(env.W.WalletStorage(PATH), env.manager)
     spans = []
